@@ -113,6 +113,15 @@ func (g *genCtx) genVars(n int, alias float64) {
 				homogeneous = pick(g.r, []int{kStr, kStr, kInt, kDateTime})
 				m = 2 + g.r.n(4)
 			}
+			if g.r.p(0.1) {
+				// a big collection, its size on either side of a power of two: code that takes another route
+				// above some size (a "don't pin a big array" copy, a hash instead of a scan, a parallel walk)
+				// never meets the handful of items ordinary values have
+				m = pick(g.r, []int{15, 17, 31, 33, 64, 65, 127, 129, 255, 256, 257, 300, 511, 513, 1023, 1025})
+				if g.r.p(0.5) {
+					homogeneous = pick(g.r, []int{kStr, kInt, kDateTime})
+				}
+			}
 			for j := 0; j < m; j++ {
 				if homogeneous >= 0 {
 					vs.Items = append(vs.Items, VarSpec{Kind: "sys", Sys: sysValFor(g.r, homogeneous)})
